@@ -9,7 +9,8 @@ Require Import Fggs.Model.Semiring Fggs.Model.SCC Fggs.Model.SumProduct Fggs.Mod
 Require Import Fggs.Proofs.BigSum Fggs.Proofs.SP_trees Fggs.Proofs.SP_nonrec Fggs.Proofs.SP_code
                Fggs.Proofs.SP_rename Fggs.Proofs.SP_spe Fggs.Proofs.SP_driver Fggs.Proofs.SP_main
                Fggs.Proofs.SP_corollaries Fggs.Proofs.SP_examples Fggs.Proofs.SP_check_sound
-               Fggs.Proofs.SP_scc_glue Fggs.Proofs.SP_empty_dom Fggs.Proofs.SP_shared_operand.
+               Fggs.Proofs.SP_scc_glue Fggs.Proofs.SP_empty_dom Fggs.Proofs.SP_shared_operand
+               Fggs.Proofs.SP_annihilated.
 Require Import Fggs.Model.EReal Fggs.Model.Trop Fggs.Proofs.Instances_scc Fggs.Proofs.Instances.
 
 (** * 0. The oracle of the correspondence check is sound *)
@@ -665,3 +666,64 @@ Theorem C01_shared_operand_independent :
     = mul o (w 0 [c]) (mul o (add o (w 0 [0]) (w 0 [1])) (add o (w 1 [0]) (w 1 [1]))).
 Proof. exact (fun R o H => @shared_operand_S R o H). Qed.
 Print Assumptions C01_shared_operand_independent.
+
+(** * Magnitudes (class of the seeded regression C01-g): terms annihilated by a zero factor *)
+(** two weight environments that differ only on the factors of terms which contain a zero factor (in both) give
+    the same value of the rule: the value is independent of how large / small / infinite the annihilated
+    factors are *)
+Theorem C01_rule_val_annihilated_terms :
+  forall R (o : sr_ops R), sr_ring o ->
+  forall G (e e' : env (R:=R)) r xi,
+  (forall a, In a (all_assts (node_sizes G r)) ->
+     killed2 o e e' r a
+     \/ (forall ed, In ed (r_edges r) -> e (fst ed) (sel a (snd ed)) = e' (fst ed) (sel a (snd ed)))) ->
+  rule_val o G e r xi = rule_val o G e' r xi.
+Proof. exact (fun R o H => @rule_val_annihilated_terms R o H). Qed.
+Print Assumptions C01_rule_val_annihilated_terms.
+
+Theorem C01_rule_val_all_killed :
+  forall R (o : sr_ops R), sr_ring o ->
+  forall G (e : env (R:=R)) r xi,
+  (forall a, In a (all_assts (node_sizes G r)) ->
+     exists ed, In ed (r_edges r) /\ e (fst ed) (sel a (snd ed)) = zero o) ->
+  rule_val o G e r xi = zero o.
+Proof. exact (fun R o H => @rule_val_all_killed R o H). Qed.
+Print Assumptions C01_rule_val_all_killed.
+
+(** the order of the edges of a right-hand side is immaterial *)
+Theorem C01_rule_val_edge_order :
+  forall R (o : sr_ops R), sr_ring o ->
+  forall G (e : env (R:=R)) r r' xi,
+  r_nodes r' = r_nodes r -> r_ext r' = r_ext r -> Permutation.Permutation (r_edges r) (r_edges r') ->
+  rule_val o G e r xi = rule_val o G e r' xi.
+Proof. exact (fun R o H => @rule_val_edge_order R o H). Qed.
+Print Assumptions C01_rule_val_edge_order.
+
+(** a nan of the implementation reaches the oracle as the empty interval ([1, 0] resp. [+inf, -inf]); the
+    oracle rejects it whatever the exact value is *)
+Theorem C01_nan_rejected_real :
+  forall (x : ereal) (lo hi : QArith_base.Q), QArith_base.Qlt hi lo -> real_within x (lo, Some hi) = false.
+Proof. exact real_within_empty. Qed.
+Print Assumptions C01_nan_rejected_real.
+
+Theorem C01_nan_rejected_trop :
+  forall (x : trop) (q q' : QArith_base.Q),
+  trop_within x (2, q) (0, q') = false.
+Proof. exact trop_within_empty. Qed.
+Print Assumptions C01_nan_rejected_trop.
+
+(** S -> f(n) g(n) h(n) with f = g = [B, 1], h = [0, 1], B in {2^1000, +inf, 2^-1000}, all six edge orders:
+    [sp_check_real] accepts the observation 1, rejects nan and rejects +inf *)
+Theorem C01_magnitude_example :
+  forallb (fun edges => forallb (fun big =>
+             Nat.eqb (sp_check_real (([2], [(false, []); (true, [0]); (true, [0]); (true, [0])],
+                                      [(0, [0], edges, [])], 0), w_mag big, obs_one)) 0
+             && Nat.eqb (sp_check_real (([2], [(false, []); (true, [0]); (true, [0]); (true, [0])],
+                                      [(0, [0], edges, [])], 0), w_mag big, obs_nan)) 1
+             && Nat.eqb (sp_check_real (([2], [(false, []); (true, [0]); (true, [0]); (true, [0])],
+                                      [(0, [0], edges, [])], 0), w_mag big, obs_inf)) 1)
+          [Some big_q; None; Some tiny_q])
+    [[(1, [0]); (2, [0]); (3, [0])]; [(1, [0]); (3, [0]); (2, [0])]; [(3, [0]); (1, [0]); (2, [0])];
+     [(2, [0]); (1, [0]); (3, [0])]; [(2, [0]); (3, [0]); (1, [0])]; [(3, [0]); (2, [0]); (1, [0])]] = true.
+Proof. exact mag_example_orders. Qed.
+Print Assumptions C01_magnitude_example.
